@@ -84,6 +84,7 @@ SCENARIOS = {
     "v2p.file.gz": ("volume_to_precomputed", False, []),
     "v2p.file.flat.plain": ("volume_to_precomputed", False, ["--flat", "--no-gzip"]),
     "v2p.sharded": ("volume_to_precomputed", True, []),
+    "v2p.geninfo": ("volume_to_precomputed:geninfo", False, []),
     "compute.file": ("compute_scales", False, []),
     "compute.sharded": ("compute_scales", True, []),
     "convert.file_to_sharded": ("convert_chunks", True, []),
@@ -94,7 +95,15 @@ SCENARIOS = {
 def setup(name, sandbox):
     """-> (module, args, interposer root, [(dataset dir, {scale key: role})])"""
     tool, sharded, opts = SCENARIOS[name]
-    mod = "neuroglancer_scripts.scripts." + tool
+    mod = "neuroglancer_scripts.scripts." + tool.split(":")[0]
+    if tool == "volume_to_precomputed:geninfo":
+        # the metadata step: the files the command is asked to produce are the targets
+        vol = _volume(sandbox, (4, 4, 2), 5)
+        ds = os.path.join(sandbox, "ds")
+        os.makedirs(ds)
+        return mod, [vol, ds, "--generate-info"] + opts, ds, [
+            ("file", os.path.join(ds, "info_fullres.json"), "target"),
+            ("file", os.path.join(ds, "transform.json"), "target")]
     if tool == "volume_to_precomputed":
         vol = _volume(sandbox, (4, 4, 2), 5)
         ds = os.path.join(sandbox, "ds")
@@ -125,7 +134,18 @@ def snapshot(datasets):
     """decoded chunks of every (dataset, scale) through a FRESH accessor"""
     from neuroglancer_scripts import accessor, precomputed_io
     out = {}
-    for d, roles in datasets:
+    for ent in datasets:
+        if ent[0] == "file":
+            _, path, role = ent
+            try:
+                with open(path, "rb") as f:
+                    raw = f.read()
+                json.loads(raw)      # a reader of a metadata file parses it: a torn file is detectably invalid
+                out[("file", os.path.basename(path))] = ({"st": "ok", "data": list(raw)}, role)
+            except (OSError, ValueError) as e:
+                out[("file", os.path.basename(path))] = ({"st": "exc", "data": [], "cls": type(e).__name__}, role)
+            continue
+        d, roles = ent
         try:
             acc = accessor.get_accessor_for_url(d)
             r = precomputed_io.get_IO_for_existing_dataset(acc)
